@@ -37,9 +37,9 @@ NewClauses(e) ==
      <<"crash", e.died = 0>>,
      <<"unusable", e.usable # 0>>,
      <<"pos-out-of-range", e.out.kind = "ok" => e.pos2 = 0 /\ e.cap2 >= 0>>,
-     <<"model:outcome", e.n > 0 \/ e.out.kind \in NewOutcomes(e.a)>>,
      \* initial contents given together with a capacity (e.n bytes): an accepted buffer holds them all
      <<"initial-contents-do-not-fit", (e.died = 0 /\ e.out.kind = "ok" /\ e.n > 0) => e.cap2 >= e.n>>,
+     <<"model:outcome", e.n > 0 \/ e.out.kind \in NewOutcomes(e.a)>>,
      <<"model:capacity", (e.out.kind = "ok" /\ IsSmall(e.a) /\ e.n = 0) => e.cap2 = Val(e.a)>> >>
 
 Clauses(e) == IF e.m = "new" THEN NewClauses(e) ELSE MethodClauses(e)
